@@ -371,6 +371,20 @@ wipe_warmup(void)
 }
 #endif /* DRV_DH_WRAP */
 
+/* a failed OpenSSL operation unrelated to crypto_dh.c, handled by its return value */
+static void
+stale_openssl_error(void)
+{
+	BIGNUM * a = BN_new(), * z = BN_new(), * r = BN_new();
+	BN_CTX * c = BN_CTX_new();
+
+	if (a && z && r && c) {
+		BN_set_word(a, 7); BN_zero(z);
+		(void)BN_div(NULL, r, a, z, c);	/* division by zero: returns 0, queues an error */
+	}
+	BN_free(a); BN_free(z); BN_free(r); BN_CTX_free(c);
+}
+
 int
 main(int argc, char ** argv)
 {
@@ -393,6 +407,13 @@ main(int argc, char ** argv)
 		size_t l;
 
 		ent_reset();
+		/* The process uses OpenSSL for other things too: on about half of the plain cases (chosen
+		 * by the case text, so that a replayed case behaves alike) an earlier, unrelated OpenSSL
+		 * call has failed and was handled through its return value, which leaves an entry on the
+		 * thread's error queue.  The queue is emptied after every case. */
+		if (n >= 2 && tok[0][0] != 'x' && tok[0][0] != 'w' && tok[0][0] != 'r' &&
+		    ((strlen(tok[n - 1]) + (unsigned char)tok[n - 1][strlen(tok[n - 1]) / 2]) & 1))
+			stale_openssl_error();
 		if (n == 3 && strcmp(tok[0], "genpub") == 0) {
 			uint8_t * priv = drv_unhex(tok[1], &l, 0);
 			uint8_t * pub = outbuf(CRYPTO_DH_PUBLEN);
@@ -458,6 +479,7 @@ main(int argc, char ** argv)
 #endif
 		} else
 			printf("bad-case\n");
+		ERR_clear_error();
 	}
 	return (0);
 }
